@@ -89,6 +89,8 @@ type Op struct {
 	// Reconfigure
 	Config json.RawMessage `json:"config,omitempty"`
 	Tag    string          `json:"tag,omitempty"` // free-form label carried into the trace
+	// RestartMid: restart from one of the cache snapshots saved in the MIDDLE of the previous request (0 <= pick < 1)
+	Pick float64 `json:"pick,omitempty"`
 }
 
 // NewCtr is a container that first appears in a Synchronize list.
@@ -122,17 +124,20 @@ type ctrRec struct {
 
 // World is a running resource manager plus the environment's bookkeeping.
 type World struct {
-	Spec     WorldSpec
-	Dir      string
-	SysRoot  string
-	StateDir string
-	H        *resmgr.VerifHarness
-	agent    *agent.Agent
-	pods     map[string]*podRec
-	ctrs     map[string]*ctrRec
-	cfgGen   int64
-	Refused  map[string]bool // containers whose creation the plugin refused
-	curCfg   json.RawMessage // the configuration in force
+	Spec      WorldSpec
+	Dir       string
+	SysRoot   string
+	StateDir  string
+	H         *resmgr.VerifHarness
+	agent     *agent.Agent
+	pods      map[string]*podRec
+	ctrs      map[string]*ctrRec
+	cfgGen    int64
+	Refused   map[string]bool // containers whose creation the plugin refused
+	curCfg    json.RawMessage // the configuration in force
+	saves     [][]byte        // cache file contents saved during the request being executed
+	prevSaves [][]byte        // ... during the previous request
+	midInfo   tr.M
 }
 
 var fixturesDir string
@@ -718,6 +723,21 @@ func (w *World) exec(o Op) (r reply) {
 		}
 	case "Restart":
 		r.err = w.Boot()
+	case "RestartMid":
+		// the plugin died in the middle of the previous request: what is on disk is one of the snapshots saved during it
+		w.midInfo = tr.M{"mid": false, "nsaves": len(w.prevSaves)}
+		if n := len(w.prevSaves); n >= 2 {
+			idx := int(o.Pick * float64(n-1))
+			if idx > n-2 {
+				idx = n - 2
+			}
+			if err := os.WriteFile(filepath.Join(w.StateDir, "cache"), w.prevSaves[idx], 0o644); err != nil {
+				r.err = err
+				return r
+			}
+			w.midInfo = tr.M{"mid": true, "nsaves": n, "save": idx}
+		}
+		r.err = w.Boot()
 	default:
 		r.known = false
 	}
@@ -799,6 +819,12 @@ func (w *World) Step(o Op, hidx, k int) (tr.M, error) {
 	}
 	var r reply
 	done := make(chan struct{})
+	w.prevSaves, w.saves = w.saves, nil
+	cache.VerifOnSaved(func(path string) {
+		if b, err := os.ReadFile(path); err == nil {
+			w.saves = append(w.saves, b)
+		}
+	})
 	go func() {
 		r = w.exec(o)
 		close(done)
@@ -808,6 +834,13 @@ func (w *World) Step(o Op, hidx, k int) (tr.M, error) {
 	case <-time.After(opTimeout):
 		line["hang"] = true
 		return line, ErrHang
+	}
+	cache.VerifOnSaved(nil)
+	if o.Op == "RestartMid" {
+		line["ev"] = "Restart"
+		for k, v := range w.midInfo {
+			line[k] = v
+		}
 	}
 	line["err"] = r.err != nil
 	if r.err != nil {
